@@ -9,7 +9,7 @@ use std::sync::atomic::Ordering;
 
 use crate::ctx::{Case, Ctx};
 use crate::gen::*;
-use crate::objs::{parse_indexed, parse_shards, to_hex, Ans, ENGINES};
+use crate::objs::{parse_indexed, parse_shards, to_hex, Ans, Session, ENGINES};
 
 /// byte indexes (lo, hi) of slot `l` in a shard of `sb` bytes, per src/algorithm.md
 pub fn slot_bytes(sb: usize, l: usize) -> (usize, usize) {
@@ -99,6 +99,7 @@ pub fn run(ctx: &mut Ctx) {
         }
     }
     let runs = ctx.run_cases(&cases);
+    huge_shards(ctx);
     reed_solomon_simd::verif_hooks::POISON_SEED.store(0, Ordering::Relaxed);
     for ((case, run), (cfg, slots, k, ngo, ngr, enc_idx, dec_idx)) in cases.iter().zip(runs.iter()).zip(metas.iter()) {
         let sb = cfg.sb;
@@ -132,6 +133,62 @@ pub fn run(ctx: &mut Ctx) {
                 );
                 break;
             }
+        }
+    }
+}
+
+/// shards of hundreds of kilobytes (a working set of tens of megabytes: beyond every cache, beyond any "small input"
+/// threshold an engine might switch algorithms at): selected slots against the same slots coded alone as 2-byte shards,
+/// exact lengths, and a decode of the full-size shards.  Run directly (the hex lines of a case would be tens of MB).
+fn huge_shards(ctx: &mut Ctx) {
+    let thorough = ctx.thorough();
+    let mut engines: Vec<&str> = vec!["nosimd"];
+    if thorough { engines = ENGINES.iter().cloned().filter(|e| *e != "neon" || crate::neon_port::AVAILABLE).collect(); } else { engines.push(*ctx.rng.pick(&["naive", "ssse3", "avx2", "default"])); }
+    for (n, engine) in engines.iter().enumerate() {
+        let (kind, k, r) = if n % 2 == 0 { ("high", 20usize, 16usize) } else { ("low", 6usize, 20usize) };
+        let sb = 524_288 + 64 * ctx.rng.range(100, 2000) + 2 * ctx.rng.range(1, 31);
+        let cfg = Cfg { kind: kind.into(), engine: engine.to_string(), k, r, sb };
+        let descr = format!("huge shards: {} (encode, slots vs 2-byte coding, decode)", cfg.tag());
+        let case = Case { name: format!("huge-{}", engine), lines: vec![descr.clone()], with_model: false };
+        ctx.evaluations += 1;
+        ctx.count("huge_shards", engine);
+        let originals: Vec<Vec<u8>> = (0..k).map(|_| ctx.rng.bytes(sb)).collect();
+        let Some(rec) = encode_impl(&cfg, &originals) else {
+            ctx.oracle_fail(format!("{}: encode failed", descr), &case, None);
+            continue;
+        };
+        if rec.len() != r || rec.iter().any(|x| x.len() != sb) {
+            ctx.oracle_fail(format!("{}: a recovery shard does not have exactly {} bytes", descr, sb), &case, None);
+            continue;
+        }
+        let nslots = sb / 2;
+        let mut slots = vec![0, 1, 31, 32, nslots / 2, 32 * (nslots / 32) - 1, (32 * (nslots / 32)).min(nslots - 1), nslots - 1, ctx.rng.below(nslots)];
+        slots.sort_unstable();
+        slots.dedup();
+        let c2 = Cfg { sb: 2, ..cfg.clone() };
+        let mut bad = None;
+        for l in &slots {
+            let small: Vec<Vec<u8>> = originals.iter().map(|o| slot_of(o, sb, *l)).collect();
+            let Some(rec2) = encode_impl(&c2, &small) else { bad = Some(format!("2-byte run of slot {} failed", l)); break };
+            if let Some(j) = (0..r).find(|j| slot_of(&rec[*j], sb, *l) != rec2[*j]) {
+                bad = Some(format!("slot {} of recovery shard {} differs from coding that slot alone as 2-byte shards", l, j));
+                break;
+            }
+        }
+        if let Some(b) = bad {
+            ctx.oracle_fail(format!("{}: {}", descr, b), &case, None);
+            continue;
+        }
+        // decode: lose min(k, r, 5) originals
+        let miss = k.min(r).min(5);
+        let mut d = Session::new();
+        let mut ok = matches!(d.exec(&cfg.new_line("D")).0, Ans::Ok(_));
+        for i in miss..k { ok &= matches!(d.exec(&format!("D addo {} {}", i, to_hex(&originals[i]))).0, Ans::Ok(_)); }
+        for j in 0..miss { ok &= matches!(d.exec(&format!("D addr {} {}", r - 1 - j, to_hex(&rec[r - 1 - j]))).0, Ans::Ok(_)); }
+        let restored = match d.exec("D decode").0 { Ans::Ok(p) => parse_indexed(&p), _ => None };
+        match restored {
+            Some(x) if ok && x.len() == miss && x.iter().all(|(i, s)| *s == originals[*i]) => {}
+            _ => ctx.oracle_fail(format!("{}: decode does not restore the originals", descr), &case, None),
         }
     }
 }
